@@ -60,6 +60,7 @@ where
         let big = r.chance(0.3);
         let mut bad: Option<(String, String)> = None;
         for _ in 0..n_ops {
+            beat();
             let room = max - total;
             let x = r.f64();
             let wt = |r: &mut FastRng, room: u128| -> u64 {
